@@ -244,3 +244,72 @@ def fresh(typ, name='fresh'):
     with NoTracing():
         space = context_statespace()
         return proxy_for_type(typ, name + space.uniq())
+
+
+def explore_choices(run, nbits, budget_s=60.0, pin=(), samples=2):
+    """Exhaustive exploration of a tree of boolean choices with z3 as the
+    bookkeeper (all-SAT with prefix generalisation).
+
+    ``run(bits)`` executes the scenario natively with the given choice vector
+    (list of bools, length ``nbits``) and returns (verdict, consumed) where
+    verdict is None (property held), 'skip' (precondition not met) or a
+    violation description, and ``consumed`` is the number of leading bits the
+    run actually read.  After each run the consumed prefix is blocked; the
+    exploration is complete when z3 reports unsat: every choice vector then
+    shares a consumed prefix with an explored run and behaves identically.
+    """
+    t0 = time.time()
+    bits = [z3.Bool(f'c{i}') for i in range(nbits)]
+    s = z3.Solver()
+    for i, v in enumerate(pin):
+        s.add(bits[i] == bool(v))
+    checks = 0
+    stime = 0.0
+    paths = ok = skipped = 0
+    cex = None
+    msg = None
+    smp = []
+    status = 'UNKNOWN'
+    while True:
+        if time.time() - t0 > budget_s:
+            break
+        tq = time.perf_counter()
+        r = s.check()
+        stime += time.perf_counter() - tq
+        checks += 1
+        if r == z3.unsat:
+            status = 'CONFIRMED' if ok > 0 else 'VACUOUS'
+            break
+        if r != z3.sat:
+            break
+        m = s.model()
+        vec = [bool(z3.is_true(m.eval(b, model_completion=True)))
+               for b in bits]
+        verdict, consumed = run(vec)
+        paths += 1
+        consumed = max(min(consumed, nbits), len(pin))
+        if verdict is None:
+            ok += 1
+            if len(smp) < samples:
+                smp.append({'bits': [int(x) for x in vec[:consumed]]})
+        elif verdict == 'skip':
+            skipped += 1
+        else:
+            cex = {'bits': [int(x) for x in vec[:consumed]]}
+            msg = verdict
+            status = 'VIOLATED'
+            break
+        if consumed == 0:
+            status = 'CONFIRMED' if ok > 0 else 'VACUOUS'
+            break
+        s.add(z3.Or([bits[i] != vec[i] for i in range(consumed)]))
+    return {
+        'status': status, 'exhausted': status in ('CONFIRMED', 'VACUOUS'),
+        'paths': paths, 'paths_ok': ok, 'paths_skipped': skipped,
+        'cex': cex,
+        'exc': {'type': 'Violation', 'msg': msg} if cex else None,
+        'samples': smp, 'solver_checks': checks,
+        'solver_seconds': round(stime, 3), 'solver_unknown': 0,
+        'wall_s': round(time.time() - t0, 2), 'engine_error': None,
+        'engine': 'z3 all-SAT over choice vectors',
+    }
